@@ -85,3 +85,57 @@ def case(rng, profile, types=None, orders=(4, 4, 4, 8, 2)):
         nops = rng.choice([1, 1, 2, 2, 3, 4])
         lines.append("thread %d %s" % (t, " ; ".join(thread_prog(rng, pool, focus, profile, allow_delete, nops))))
     return lines
+
+
+def _keys18(ty):
+    """eighteen ascending key tokens; even positions are the main keys k[0..8],
+    odd positions are fillers between them"""
+    if ty == "str":
+        return [str(48 + i) for i in range(18)]
+    if ty in ("i32", "i64"):
+        return [str(i - 4) for i in range(18)]
+    if ty == "cmp":
+        return ["%d#%d" % (i, i % 3) if i % 3 else str(i) for i in range(18)]
+    return [str(i) for i in range(18)]
+
+
+def catalogue(types=None):
+    """Small hand-shaped configurations (order 4) explored under EVERY schedule:
+    a writer that splits / borrows / merges next to a reader, cursor or writer."""
+    cases = []
+    for ty in (types or genseq.TYPES):
+        kk = _keys18(ty)
+        k = kk[0::2]
+        fill = kk[1::2]
+        load17 = ["pre ins %s %d" % (k[i], i) for i in range(1, 8)]      # {1,2}{3,4}{5,6,7}
+        shapes = {
+            "min-min-min": load17 + ["pre del %s" % k[7]],                            # {1,2}{3,4}{5,6}
+            "rich-min-min": load17 + ["pre ins %s 0" % k[0], "pre del %s" % k[7]],   # {0,1,2}{3,4}{5,6}
+            "min-rich-min": load17 + ["pre ins %s 0" % fill[3], "pre del %s" % k[7]],  # {1,2}{3,3+,4}{5,6}
+            "min-min-rich": load17 + ["pre ins %s 8" % k[8]],                          # {1,2}{3,4}{5,6,7,8}
+        }
+        cur = "ns %s ; scan ; pair ; scan ; pair ; scan ; pair ; scan ; pair ; scan ; pair ; scan ; pair ; scan ; pair ; scan ; pair ; close"
+        for name, pre in shapes.items():
+            for dk in (k[1], k[3], k[5]):
+                # cursor walking across the leaves while a leaf under-flows
+                for start in (k[0], k[2], k[4]):
+                    cases.append(["cbegin %s 4" % ty] + pre + ["thread 0 " + cur % start, "thread 1 del %s" % dk, "strategy dfs", "cend"])
+                # point readers/writers next to the same delete
+                cases.append(["cbegin %s 4" % ty] + pre + ["thread 0 get %s ; get %s" % (k[4], k[2]), "thread 1 del %s" % dk, "strategy dfs", "cend"])
+            cases.append(["cbegin %s 4" % ty] + pre + ["thread 0 ins %s 9 ; get %s" % (fill[4], fill[4]), "thread 1 del %s ; get %s" % (k[3], fill[4]), "strategy dfs", "cend"])
+        # search / insert / update while a leaf or the root splits
+        full = ["pre ins %s %d" % (k[i], i) for i in (1, 3, 5, 7)]                       # full root leaf
+        cases.append(["cbegin %s 4" % ty] + full + ["thread 0 ins %s 8 ; get %s" % (k[8], k[6]), "thread 1 ins %s 6 ; get %s" % (k[6], k[6]), "strategy dfs", "cend"])
+        cases.append(["cbegin %s 4" % ty] + full + ["thread 0 get %s" % k[7], "thread 1 ins %s 6" % k[6], "thread 2 get %s" % k[5], "strategy dfs", "cend"])
+        two = ["pre ins %s %d" % (k[i], i) for i in (1, 2, 3, 4, 5, 6)]                  # {1,2}{3,4,5,6}: full right leaf
+        cases.append(["cbegin %s 4" % ty] + two + ["thread 0 get %s ; get %s" % (k[6], k[5]), "thread 1 ins %s 7" % k[7], "strategy dfs", "cend"])
+        cases.append(["cbegin %s 4" % ty] + two + ["thread 0 upd %s a1 ; get %s" % (k[5], k[5]), "thread 1 upd %s a1" % k[5], "thread 2 ins %s 0" % k[0], "strategy dfs", "cend"])
+        cases.append(["cbegin %s 4" % ty] + two + ["thread 0 upd %s ya1" % k[4], "thread 1 upd %s ya1" % k[4], "thread 2 upd %s a1" % k[4], "strategy dfs", "cend"])
+        cases.append(["cbegin %s 4" % ty] + two + ["thread 0 upd %s ya1" % k[8], "thread 1 upd %s ya1" % k[8], "strategy dfs", "cend"])
+        cases.append(["cbegin %s 4" % ty] + two + ["thread 0 upd %s ya1" % k[0], "thread 1 upd %s a1 ; get %s" % (k[0], k[0]), "strategy dfs", "cend"])
+        cases.append(["cbegin %s 4" % ty] + two + ["thread 0 upd %s ya1" % fill[4], "thread 1 upd %s a1 ; get %s" % (fill[4], fill[4]), "strategy dfs", "cend"])
+        # root collapse against readers and writers
+        small = ["pre ins %s %d" % (k[i], i) for i in (1, 2, 3, 4, 5)] + ["pre del %s" % k[5]]   # {1,2}{3,4}
+        cases.append(["cbegin %s 4" % ty] + small + ["thread 0 del %s" % k[1], "thread 1 get %s ; ins %s 8" % (k[4], k[8]), "strategy dfs", "cend"])
+        cases.append(["cbegin %s 4" % ty] + small + ["thread 0 del %s" % k[3], "thread 1 " + cur % k[0], "strategy dfs", "cend"])
+    return cases
